@@ -41,13 +41,13 @@ const notesTpl = `NOTES {{ .Template.BasePath }}
 const crdTpl = `apiVersion: apiextensions.k8s.io/v1
 kind: CustomResourceDefinition
 metadata:
-  name: %[1]ss.verif.example
+  name: %[1]s.verif.example
 spec:
   group: verif.example
   scope: Namespaced
   names:
     kind: %[2]s
-    plural: %[1]ss
+    plural: %[1]s
     singular: %[1]s
   versions:
     - name: v1
@@ -138,6 +138,30 @@ func chartYAML(name string, def ChartDef) string {
 	return sb.String()
 }
 
+// crdPlural("charts/mid/charts/leaf/") = "root-mid-leaf"
+func crdPlural(prefix string) string {
+	out := "root"
+	parts := strings.Split(strings.Trim(prefix, "/"), "/")
+	for i := 0; i+1 < len(parts); i += 2 {
+		if parts[i] == "charts" {
+			out += "-" + parts[i+1]
+		}
+	}
+	return out
+}
+
+// rawPathOfCRD("root-mid-leaf.verif.example") = ["mid","leaf"]
+func rawPathOfCRD(name string) ([]string, bool) {
+	if !strings.HasSuffix(name, ".verif.example") {
+		return nil, false
+	}
+	parts := strings.Split(strings.TrimSuffix(name, ".verif.example"), "-")
+	if len(parts) == 0 || parts[0] != "root" {
+		return nil, false
+	}
+	return append([]string{}, parts[1:]...), true
+}
+
 // BuildOpts selects the extras of the generated charts.
 type BuildOpts struct {
 	Lookup bool // the root probe template calls `lookup` (a render leaves a GET in the request log)
@@ -171,7 +195,9 @@ func (c *Case) Files(o BuildOpts) []*loader.BufferedFile {
 		add(prefix+"templates/hook.yaml", hookTpl)
 		add(prefix+"templates/NOTES.txt", notesTpl)
 		if def.Crds {
-			add(prefix+"crds/crd.yaml", fmt.Sprintf(crdTpl, name, strings.ToUpper(name[:1])+name[1:]))
+			// the CRD is named after the chart DIRECTORY it ships in (root-mid-leaf.verif.example), so that a CRD
+			// found in the cluster can be attributed to the chart object that contributed it
+			add(prefix+"crds/crd.yaml", fmt.Sprintf(crdTpl, crdPlural(prefix), strings.ToUpper(name[:1])+name[1:]))
 		}
 		seen := map[string]bool{}
 		for _, d := range def.Deps {
